@@ -77,6 +77,11 @@ func C13Dup(which int) {
 		expect("dup-definition/union-branch+"+defKinds[k], app(src, defText(k, n2)), bad)
 	case 5:
 		expect("dup-const", app(nil, "const int32 ", n1, " = 1;\nconst int32 ", n2, " = 2;\n"), bad)
+	case 6:
+		// the same inside the inline definitions of a union
+		expect("dup-union-branch-struct-field", app(nil, "union U { 1 -> struct A { int32 ", n1, "; string ", n2, "; } }\n"), bad)
+	case 7:
+		expect("dup-union-branch-message-field", app(nil, "union U { 1 -> message A { 1 -> int32 ", n1, "; 2 -> string ", n2, "; } }\n"), bad)
 	}
 }
 
@@ -152,8 +157,35 @@ var primNames = []string{"bool", "byte", "uint8", "uint16", "int16", "uint32", "
 // C13Prim: a definition named like a primitive is rejected.
 func C13Prim() {
 	p := primNames[vstub.Choose(0, len(primNames)-1)]
-	k := vstub.Choose(0, 3)
-	expect("primitive-name/"+defKinds[k], defText(k, []byte(p)), true)
+	k := vstub.Choose(0, 5)
+	switch k {
+	case 4:
+		expect("primitive-name/union-struct-branch", app(nil, "union U { 1 -> struct ", p, " { int32 x; } }\n"), true)
+	case 5:
+		expect("primitive-name/union-message-branch", app(nil, "union U { 1 -> message ", p, " { 1 -> int32 x; } }\n"), true)
+	default:
+		expect("primitive-name/"+defKinds[k], defText(k, []byte(p)), true)
+	}
+}
+
+// C13FlagsRange: a [flags] member written as a literal outside the base type
+// is rejected like any other enum value (one inside is accepted).
+func C13FlagsRange(bi int) {
+	b := bases[bi]
+	if b.max > 0xffffffff {
+		lit := "18446744073709551616"
+		if b.signed {
+			lit = "9223372036854775808"
+		}
+		expect("flags-range/"+b.name, app(nil, "[flags]\nenum E : ", b.name, " { A = ", lit, "; }\n"), true)
+		return
+	}
+	k := 3
+	if b.max > 0xffff {
+		k = 5
+	}
+	lit, v := dec(k)
+	expect("flags-range/"+b.name, app(nil, "[flags]\nenum E : ", b.name, " { A = ", lit, "; }\n"), v > b.max)
 }
 
 // C13Range: an enum value outside its base type is rejected, one inside is accepted.
@@ -203,6 +235,9 @@ var constBad = []string{
 	"const guid x = \"abc\";", "const guid x = 7;", "const E x = 1;", "const int32[] x = 1;",
 }
 
+// literals that cannot be read as a value of the declared numeric type at all
+var constUnreadable = []string{"const uint8 x = -1;", "const uint64 x = -0x10;", "const int32 x = 1e5;", "const int16 x = 1e2;"}
+
 var constGood = []string{
 	"const int32 x = -5;", "const uint64 x = 0xff;", "const float32 x = 1.5;", "const float64 x = 2;", "const bool x = false;",
 	"const string x = \"hi\";", "const guid x = \"e215a946-b26f-4567-a276-13136f0a1708\";", "const float64 x = inf;", "const float32 x = nan;",
@@ -210,10 +245,14 @@ var constGood = []string{
 
 // C13Const: a const literal of the wrong kind for its type is rejected.
 func C13Const() {
-	if vstub.Choose(0, 1) == 0 {
+	switch vstub.Choose(0, 2) {
+	case 0:
 		i := vstub.Choose(0, len(constBad)-1)
 		expect("const-kind", app(nil, "enum E { A = 1; }\n", constBad[i], "\n"), true)
-	} else {
+	case 2:
+		i := vstub.Choose(0, len(constUnreadable)-1)
+		expect("const-unreadable", app(nil, constUnreadable[i], "\n"), true)
+	default:
 		i := vstub.Choose(0, len(constGood)-1)
 		expect("const-kind-ok", app(nil, constGood[i], "\n"), false)
 	}
@@ -266,13 +305,17 @@ func C13Rec(variant int, first byte) {
 
 // C13RecOK: recursion through a message or a union is accepted.
 func C13RecOK() {
-	switch vstub.Choose(0, 5) {
+	switch vstub.Choose(0, 7) {
 	case 0:
 		expect("recursion-through-message", []byte("message M { 1 -> M next; 2 -> S s; }\nstruct S { M m; }\n"), false)
 	case 1:
 		expect("recursion-through-union", []byte("union L { 1 -> struct Cons { uint32 head; L tail; } 2 -> struct Nil {} }\n"), false)
 	case 3:
 		expect("recursion-direct-deprecated", []byte("struct S { int32 a; [deprecated(\"no\")] S s; }\n"), true)
+	case 6:
+		expect("recursion-union-branch-struct", []byte("union U { 1 -> struct A { int32 v; A next; } }\n"), true)
+	case 7:
+		expect("recursion-union-branch-through-top-level", []byte("struct T { A a; }\nunion U { 1 -> struct A { T t; } }\n"), true)
 	case 4:
 		expect("recursion-through-array-of-message", []byte("message M { 1 -> S[] list; }\nstruct S { M m; }\n"), false)
 	default:
